@@ -21,7 +21,7 @@ def run(ctx):
     out = ctx.harness(["omap", "--random", "400" if quick else "5000"])
     scns += common.split_scenarios(out)
     for s, evs in scns:
-        nkeys = evs[-1]["obs"]["len"] if evs else 0
+        nkeys = (evs[-1].get("obs") or {}).get("len", 0) if evs else 0
         if nkeys >= 5:
             ctx.note_nontrivial(common.chash(s))
     ctx.sample({"scenario": scns[0][0], "events": scns[0][1][:2]})
